@@ -642,6 +642,23 @@ def judge_c13(rec):
     # unrelated composites untouched
     for mode, det in wellformed.unrelated_changed(rec):
         out.append(V("C13", "violated", mode, det, cell=cell, **sig))
+    # the indices must name the place where the data really is: after a pure bookkeeping call every subsystem's
+    # reduced state, read through the (new) indices and member order, is what it was before
+    if not out and rec.step["k"] in ("combine", "reorder", "composite") and rec.exc is None:
+        try:
+            if not wellformed.c07(rec.pre):
+                lv = live(rec.pre)
+                if lv == live(rec.post):
+                    D = rec_dims(rec)
+                    for n in lv:
+                        a, _ = denote(rec.pre, [n], D)
+                        b, _ = denote(rec.post, [n], D)
+                        if ref.maxdiff(a, b) > S.EXACT_TOL:
+                            out.append(V("C13", "violated", "index-contradicts-data",
+                                         f"after {rec.step['k']} the state found at the place {n}'s index names is not {n}'s state (maxabs={ref.maxdiff(a, b):.3g})", cell=cell, **sig))
+                            break
+        except Malformed:
+            pass
     if not out:
         out.append(V("C13", "held", cell=cell, **sig))
     return out
